@@ -9,11 +9,12 @@ to the source by the `facts_*` obligations below (lock / atomic scope) and by th
 race detector runs in the harness only.
 -/
 import Vegeta.Proofs.TargeterLaws
+import Vegeta.Proofs.TargeterLin
 import Vegeta.Extracted.Facts
 namespace Vegeta.Props.C15
 open Vegeta.Go Vegeta.Model
 open Vegeta.Model.TargeterConc
-open Vegeta.Proofs.TargeterConc Vegeta.Proofs.TargeterLaws
+open Vegeta.Proofs.TargeterConc Vegeta.Proofs.TargeterLaws Vegeta.Proofs.TargeterLin
 
 /-! ### stream targeters (generic in the source) -/
 
@@ -58,6 +59,106 @@ theorem exhaustion_reported_to_all {S R T : Type} (sys : Sys S R T) (stable : St
     exhaustedCallers st'.log = exhaustedCallers st.log ++ lockCallers tr ∧
     (heldOf st'.loc).length + (delivered st'.log).length = (heldOf st.loc).length + (delivered st.log).length :=
   exhausted_run sys stable tr st st' hex hrun
+
+/-! ### linearisation at the lock -/
+
+/-- **Refinement: every interleaving is equivalent to a sequential order of calls** — for any
+stream targeter, any number of callers and any schedule `tr`: run the same calls one after the
+other, each to its end, in the order in which they took the lock (`seqTrace (lockCallers tr)`).
+That sequential run ends with the same source state, nobody mid-call, and every caller has
+received exactly the answers it has received in the interleaved run, in the same order, plus
+the answer of the call it is still in the middle of (none once it has returned).  No hypothesis
+on the source. -/
+theorem linearisation {S R T : Type} (sys : Sys S R T) (src : S) (callers : Nat) (tr : List Label) (st : St S R T)
+    (hrun : run sys (init src callers) tr = some st) :
+    let sq := runLenient sys (init src callers) (seqTrace (lockCallers tr))
+    sq.src = st.src ∧ (∀ c, c < callers → sq.loc[c]? = some .idle) ∧
+    ∀ c, eventsOf c sq.log = eventsOf c st.log ++ pendingOf' sys c st.loc := by
+  have lin := lin_run sys tr _ st _ (lin_init sys src callers) hrun
+  refine ⟨lin.src, ?_, lin.evs⟩
+  intro c hc
+  apply lin.idle c
+  have hlen : st.loc.length = callers := by
+    have : ∀ (tr : List Label) (a b : St S R T), run sys a tr = some b → b.loc.length = a.loc.length := by
+      intro tr
+      induction tr with
+      | nil => intro a b h; simp [run] at h; subst h; rfl
+      | cons l ls ih =>
+        intro a b h
+        simp only [run] at h
+        split at h
+        · rename_i s1 hs
+          rw [ih s1 b h]
+          cases l with
+          | lock c =>
+            simp only [step] at hs
+            split at hs
+            · split at hs <;> (cases hs; simp)
+            · cases hs
+          | finish c =>
+            simp only [step] at hs
+            split at hs
+            · cases hs; simp
+            · cases hs
+        · cases h
+    rw [this tr _ st hrun]; simp [init]
+  rw [lin.len, hlen]; exact hc
+
+/-- … in particular, once every caller has returned, each caller's answers are exactly those of
+the sequential run -/
+theorem linearisation_quiescent {S R T : Type} (sys : Sys S R T) (src : S) (callers : Nat) (tr : List Label)
+    (st : St S R T) (hrun : run sys (init src callers) tr = some st) (hq : ∀ c, pendingOf' sys c st.loc = []) :
+    ∀ c, eventsOf c (runLenient sys (init src callers) (seqTrace (lockCallers tr))).log = eventsOf c st.log := by
+  intro c
+  have := (linearisation sys src callers tr st hrun).2.2 c
+  simpa [hq c] using this
+
+/-! ### why the JSON targeter may decode outside its lock -/
+
+/-- **The JSON targeter's two-phase shape (read under the lock, decode outside) is safe because
+`ReadBytes` returns a fresh copy**: in the model that makes the reader's buffer part of the
+shared state, giving every caller its own copy of the line (`fresh = true`) makes every schedule
+step for step a schedule of the two-phase model `jsonSys` (to which all theorems above apply).
+The fresh copy is an ASSUMPTION about `bufio.Reader.ReadBytes` (documented by the standard
+library, checked at run time by the race detector rounds), not a theorem about it. -/
+theorem json_decode_outside_lock_safe (cfg : JSONTargets.Cfg) (src : Bytes) (callers : Nat) (tr : List Label)
+    (s : BSt) (h : brun cfg true (binit src callers) tr = some s) :
+    run (jsonSys cfg) (init src callers) tr = some (proj s) := by
+  have ho : OwnsOnly (binit src callers).loc := by
+    intro l hl
+    simp only [binit, List.mem_replicate] at hl
+    rw [hl.2]; simp
+  have := fresh_run cfg tr (binit src callers) s ho h
+  have hp : proj (binit src callers) = init src callers := by
+    simp [proj, binit, init, projLoc]
+  rw [hp] at this
+  exact this
+
+/-- the decoder used in the two examples below: a line decodes to a target named after it -/
+def echoCfg : JSONTargets.Cfg :=
+  { dec := fun l => some { method := l, url := l, body := [], header := [] }, body := [], hdr := [] }
+
+/-- … and WITHOUT the fresh copy it is not: two lines `A`, `B`, two callers, schedule
+lock 0, lock 1, finish 0, finish 1 — caller 0 took line `A` but decodes `B` (a window into the
+reader's buffer, overwritten by caller 1's read): `B` is delivered twice, `A` never. -/
+theorem json_decode_outside_lock_needs_fresh_copy :
+    (brun echoCfg false (binit [65, 10, 66, 10] 2) [.lock 0, .lock 1, .finish 0, .finish 1]).map (fun s => s.log) =
+      some [.result 0 (.ok { method := [66], url := [66], body := [], header := [] }),
+            .result 1 (.ok { method := [66], url := [66], body := [], header := [] })] := by decide
+
+/-- the same schedule with the fresh copy: `A` to caller 0, `B` to caller 1 -/
+example : (brun echoCfg true (binit [65, 10, 66, 10] 2) [.lock 0, .lock 1, .finish 0, .finish 1]).map (fun s => s.log) =
+      some [.result 0 (.ok { method := [65], url := [65], body := [], header := [] }),
+            .result 1 (.ok { method := [66], url := [66], body := [], header := [] })] := by decide
+
+/-- non-vacuity of `linearisation`: an interleaved run of two callers and its sequential counterpart -/
+example : (run (jsonSys echoCfg) (init [65, 10, 66, 10] 2) [.lock 1, .lock 0, .finish 0, .finish 1]).map (fun s => s.log) =
+      some [.result 0 (.ok { method := [66], url := [66], body := [], header := [] }),
+            .result 1 (.ok { method := [65], url := [65], body := [], header := [] })] ∧
+    (runLenient (jsonSys echoCfg) (init [65, 10, 66, 10] 2) (seqTrace (lockCallers [.lock 1, .lock 0, .finish 0, .finish 1]))).log =
+      [.result 1 (.ok { method := [65], url := [65], body := [], header := [] }),
+       .result 0 (.ok { method := [66], url := [66], body := [], header := [] })] := by
+  constructor <;> decide
 
 /-! ### the two stream targeters are such sources -/
 
